@@ -233,3 +233,27 @@ pub fn crlf(t: &str) -> String {
 pub fn cr(t: &str) -> String {
     t.replace('\n', "\r")
 }
+
+const DOC_FRAGS: &[&str] = &[
+    "&a x\n", "*a\n", "&b [1, 2]\n", "*b\n", "k: &a v\nj: *a\n", "- &a x\n- *a\n", "[&b 1, *b]\n", "{&a k: *a}\n", "&a\n", "k: *a\n", "- *b\n",
+    "!e!t x\n", "!!str y\n", "!t &a z\n", "plain\n", "k: v\n", "- a\n- b\n", "|\n  text\n", ">-\n  folded\n  more\n", "\"q\"\n", "[a, b]\n", "{a: b}\n", "",
+];
+const DOC_HEADS: &[&str] = &["---\n", "--- ", "---\n", "%YAML 1.2\n---\n", "%TAG !e! tag:e.org,2000:\n---\n", "%TAG !e! tag:e.org,2000:\n%TAG !f! !f-\n--- ", ""];
+const DOC_TAILS: &[&str] = &["", "", "...\n", "... # end\n"];
+
+/// multi-document streams with anchors, aliases, tags and directives (accepted or not)
+pub fn multi_doc(rng: &mut Rng) -> String {
+    let n = 1 + rng.below(4);
+    let mut s = String::new();
+    for i in 0..n {
+        let head = if i == 0 && rng.chance(1, 3) { "" } else { DOC_HEADS[rng.below(DOC_HEADS.len())] };
+        s.push_str(head);
+        let f = DOC_FRAGS[rng.below(DOC_FRAGS.len())];
+        if head == "--- " && (f.contains("\n") && f.trim_end().contains('\n')) {
+            s.push('\n');
+        }
+        s.push_str(f);
+        s.push_str(DOC_TAILS[rng.below(DOC_TAILS.len())]);
+    }
+    s
+}
